@@ -7,9 +7,13 @@
 import PydapModel.Dap4
 import Proofs.Dap4
 import Proofs.DmrOrder
+import Proofs.Dap4Index
+import Proofs.SliceTuple
+import Proofs.Hyperslab
+import Props.C03
 import Proofs.DmrDemo
 namespace Pydap.C10
-open Pydap.Dap4 Pydap.Dmr
+open Pydap Pydap.Dap4 Pydap.Dmr
 
 /-- the chunk-type field written by a conforming sender is read back flag for flag -/
 theorem C10_chunktype (last error little : Bool) :
@@ -122,6 +126,62 @@ theorem C10_response_document_order (little : Bool) (tree : Bytes → XNode) (it
       = .ok (dmr, little, ss.map fun x => ⟨x.values, some (swapped little x.checksum)⟩) := by
   apply C10_response little _ dmr ss chunks hd _ hs hc hne hp
   simp only [htree, C10_decode_order pre name s hok hres hn hdims, hss]
+
+/-! ### indexing: the request `BaseProxyDap4.__getitem__` builds -/
+
+/-- **Index → per-axis slices**: for an index without Ellipsis of at most `rank` entries the request carries, axis
+    by axis, numpy's expansion of the index (missing axes = whole axis), normalised by `fix_slice` and composed
+    with the proxy's default slice -/
+theorem C10_index_slices (idx : List Idx) (shape : List Nat) (h : NoEll idx) (hl : idx.length ≤ shape.length) :
+    proxy4Slices shape idx
+      = List.zipWith (fun (N : Nat) e => combine1 PSlice.all (toSlice (fixAxis N e))) shape
+          (npExpand idx none shape.length) := by
+  unfold proxy4Slices
+  rw [fixSlice_noEll idx shape h hl]
+  exact combine_zipFix _ shape (npExpand_length_none idx _ hl)
+
+/-- … and with one Ellipsis: the entries after it address the last axes -/
+theorem C10_index_slices_ellipsis (pre post : List Idx) (shape : List Nat) (h1 : NoEll pre) (h2 : NoEll post)
+    (hl : pre.length + post.length ≤ shape.length) :
+    proxy4Slices shape (pre ++ Idx.ell :: post)
+      = List.zipWith (fun (N : Nat) e => combine1 PSlice.all (toSlice (fixAxis N e))) shape
+          (npExpand pre (some post) shape.length) := by
+  unfold proxy4Slices
+  rw [fixSlice_ell pre post shape h1 h2 hl]
+  exact combine_zipFix _ shape (npExpand_length_some pre post _ hl)
+
+/-- **One axis, slice**: the slice requested for `x[s]` on an axis of extent `N` (bounds ≥ −N, step ≥ 1: numpy's
+    domain for basic slices) selects exactly the positions numpy selects -/
+theorem C10_index_axis (N : Nat) (s : PSlice)
+    (hstart : ∀ i, s.start = some i → -(N : Int) ≤ i) (hstop : ∀ j, s.stop = some j → -(N : Int) ≤ j)
+    (hstep : ∀ k, s.step = some k → 1 ≤ k) :
+    sel N (combine1 PSlice.all (toSlice (fixAxis N (Idx.sl s)))) = sel N s := by
+  have hn : NonNegSl (fixSl N s) := Pydap.C03.C03_fix_normalised N s hstart hstop hstep
+  show sel N (combine1 PSlice.all (fixSl N s)) = sel N s
+  rw [combine_all_sel N _ hn, fix_preserves N s hstart hstop hstep]
+
+/-- **One axis, integer**: `x[i]` (−N ≤ i < N) requests exactly numpy's element -/
+theorem C10_index_axis_int (N : Nat) (i : Int) (m : Nat) (h : selInt N i = some m) :
+    sel N (combine1 PSlice.all (toSlice (fixAxis N (Idx.int i)))) = [m] := by
+  have hm : m < N := by
+    unfold selInt at h
+    split at h
+    · simp at h; omega
+    · split at h
+      · simp at h; omega
+      · cases h
+  rw [Pydap.C03.C03_fix_int N i m h]
+  show sel N (combine1 PSlice.all ⟨some (m : Int), some ((m : Int) + 1), none⟩) = [m]
+  rw [combine_all_sel N _ ⟨by intro a e; cases e; omega, by intro a e; cases e; omega, by intro a e; cases e⟩]
+  exact sel_point N m hm
+
+/-- **Request text**: `"dap4.ce=" + id + hyperslab`; a server that parses the hyperslab reads back exactly the
+    slices computed above (non-empty selections: normalised slices) -/
+theorem C10_index_request (id : List Char) (shape : List Nat) (idx : List Idx)
+    (h : ∀ s ∈ proxy4Slices shape idx, NormSl s) :
+    proxy4Request id shape idx = "dap4.ce=".toList ++ id ++ hyperslabText (proxy4Slices shape idx)
+    ∧ parseHyperslab (hyperslabText (proxy4Slices shape idx)) = .ok (proxy4Slices shape idx) :=
+  ⟨rfl, parseHyperslab_hyperslabText _ h⟩
 
 /-! ### non-vacuity -/
 
